@@ -2555,6 +2555,9 @@ class AfterBodyPhase(Phase):
         # here and not to whatever is currently open.
         self.tree.insertComment(token, self.tree.openElements[0])
 
+    def processSpaceCharacters(self, token):
+        return self.parser.phases["inBody"].processSpaceCharacters(token)
+
     def processCharacters(self, token):
         self.parser.parseError("unexpected-char-after-body")
         self.parser.phase = self.parser.phases["inBody"]
